@@ -481,6 +481,78 @@ def _write_node(node, out):
                     stack.append(lead)
 
 
+def writer_styled(doc, salt=0):
+    """The same document in other conforming spellings: void elements closed with '/>' or ' />', empty foreign elements self-closed, attribute
+    values in single quotes or unquoted where the syntax allows, upper-case HTML tag names, white space before '>'.  Choices are a
+    deterministic function of (position, salt)."""
+    import re
+    out = []
+    if doc["doctype"]:
+        out.append(["<!DOCTYPE html>", "<!doctype html>", "<!DOCTYPE HTML>", "<!DOCTYPE html >"][salt % 4])
+    for c in doc["pre"]:
+        out.append("<!--%s-->" % c[1])
+    counter = [salt]
+
+    def pick(k):
+        counter[0] = (counter[0] * 1103515245 + 12345) % (1 << 31)
+        return (counter[0] >> 8) % k
+    unq_ok = re.compile(r"[^\s\"'=<>`]+")
+    stack = [doc["html"]]
+    while stack:
+        n = stack.pop()
+        if isinstance(n, str):
+            out.append(n)
+            continue
+        k = n[0]
+        if k == "t":
+            out.append(n[2] if len(n) > 2 else _esc_text(n[1]))
+            continue
+        if k == "c":
+            out.append("<!--%s-->" % n[1])
+            continue
+        ns, name, attrs, kids = n[1], n[2], n[3], n[4]
+        html = ns == HTML_NS
+        shown = name.upper() if html and pick(4) == 0 else name
+        out.append("<" + shown)
+        last_unquoted = False
+        for a in attrs:
+            v = _esc_attr(a[2])
+            q = pick(3)
+            if q == 1 and "'" not in v:
+                out.append(" %s='%s'" % (_attr_name(a), v.replace("&quot;", '"')))
+                last_unquoted = False
+            elif q == 2 and unq_ok.fullmatch(v) and "&" not in v:
+                out.append(" %s=%s" % (_attr_name(a), v))
+                last_unquoted = True
+            else:
+                out.append(' %s="%s"' % (_attr_name(a), v))
+                last_unquoted = False
+        void = html and name in VOID
+        selfclose = (not html) and not kids and pick(2) == 0
+        if void or selfclose:
+            end = pick(3) if void else 1 + pick(2)
+            if end == 1 and last_unquoted:
+                end = 2          # '/' directly after an unquoted value would belong to the value
+            out.append([">", "/>", " />"][end])
+            continue
+        out.append(">" if pick(5) else " >")
+        stack.append("</%s%s>" % (shown, "" if pick(5) else " "))
+        if html and name in RAWTEXT:
+            for c in reversed(kids):
+                stack.append(["t", c[1], c[1]])
+        else:
+            lead = ""
+            if html and name in ("pre", "textarea", "listing") and kids and kids[0][0] == "t" and kids[0][1].startswith("\n"):
+                lead = "\n"
+            for c in reversed(kids):
+                stack.append(c)
+            if lead:
+                stack.append(lead)
+    for c in doc["post"]:
+        out.append("<!--%s-->" % c[1])
+    return "".join(out)
+
+
 def features(doc):
     """Which non-triviality features does the document have?"""
     f = set()
@@ -692,7 +764,9 @@ def check_no_errors(case):
     from html5lib.html5parser import ParseError
     doc = case["doc"]
     want = obs.clarkify(flat(doc))
-    for variant, markup in (("explicit", writer(doc)), ("optional tags omitted", writer_omitting(doc))):
+    salt = len(want)
+    for variant, markup in (("explicit", writer(doc)), ("optional tags omitted", writer_omitting(doc)), ("other conforming spellings", writer_styled(doc, salt)),
+                            ("other conforming spellings", writer_styled(doc, salt + 1))):
         p = h5.parser("etree", True, full_tree=True)
         tree = p.parse(markup)
         if obs.clarkify(obs.flat(tree)) != want:
